@@ -482,13 +482,27 @@ def record_typestate(ctx, cr):
     ctx.note_analysed("record_sites", "start_record=%d end_record=%d in %d functions" % (n_start, n_end, len(fns)))
     if len(fns) < RECORD_FNS_MIN:
         ctx.lost(nrule, nrule + ":floor", "only %d functions with record events (floor %d)" % (len(fns), RECORD_FNS_MIN))
+    # a private helper that only closes (or only opens) records works on its caller's record stack: it is interpreted in place at its call
+    # sites instead of being judged on its own (`fn bail(..) { end_record(..)?; Err(e) }` split off from an error arm)
+    callers_of = {}
+    for k2, f2 in cr.fns.items():
+        for bi, t in M.iter_calls(f2):
+            callers_of.setdefault(t["fn"].get("key"), set()).add(k2.split("::{closure")[0])
+    analysed = set(k for k, s_, e_ in fns)
+    unbalanced = set(k for k, s_, e_ in fns if s_ != e_ and ai.is_private_fn(cr.fns[k]) and callers_of.get(k) and callers_of[k] <= analysed - {k})
     for k, s, e in sorted(fns):
         f = cr.fns[k]
         own = k.startswith(EVAL) and k[len(EVAL):] in OWN_STATUS_FNS
+        if k in unbalanced:
+            ctx.ob(nrule, "%s:%s" % (nrule, k), True, "private helper working on its callers' record stack (start=%d, end=%d): interpreted in place in %s" % (s, e, sorted(x.split("::")[-1] for x in callers_of[k])), fn=f)
+            continue
 
         class H(S.StatusHooks):
             def role_of(self, a, st, term, callee):
                 return "child"
+
+            def inline(self, a, st, key_, fn_):
+                return key_ in unbalanced or S.StatusHooks.inline(self, a, st, key_, fn_)
 
             def extra_call(self, a, st, term, callee, args):
                 # sources that are not Result<Status>: keep the exploration finite and generic
